@@ -15,8 +15,11 @@ def obligations(tier):
         Ob("C16.templates", "z3", "harness.C16:templates", 120, bounds="all message templates and all literal error sites (AST) - concrete lemma", replay="harness.C16:replay_template", encodes=["html5lib/constants.py:E", "html5lib/html5parser.py:HTMLParser.parseError"]),
     ] + [
         Ob("C16.conforming-no-errors/doc%d" % d, "crosshair", "harness.C16:conforming_no_errors", T, param={"tlen": 1 if q else 2, "doc": d}, bounds="conforming skeleton x symbolic text of <= %d arbitrary characters (no markup / invalid code points), scripting on/off, strict mode" % (1 if q else 2),
-           encodes=["html5lib/html5parser.py:HTMLParser.mainLoop", "html5lib/html5parser.py:HTMLParser.parseError"]) for d in range(10)
+           encodes=["html5lib/html5parser.py:HTMLParser.mainLoop", "html5lib/html5parser.py:HTMLParser.parseError"]) for d in range(14)
     ]
+    for b in (0, 1):
+        obs.append(Ob("C16.positions-after-restart/bom%d" % b, "crosshair", "harness.C06:precedence", T, param={"bom": b, "a0": 0, "amax": 1},
+                      bounds="byte input: encoding arguments x in-window / late declarations (a late one restarts the parse); every recorded error position lies inside the input", encodes=["html5lib/_inputstream.py:HTMLUnicodeInputStream.reset", "html5lib/_inputstream.py:HTMLUnicodeInputStream.position", "html5lib/html5parser.py:HTMLParser._parse"]))
     ctxs = list(range(len(pc.CONTEXTS)))
     if q:
         ctxs = ctxs[::3]
